@@ -1043,10 +1043,20 @@ pub struct ChunkSrc {
     pub data: Arc<Vec<u8>>,
     pub pos: usize,
     pub chunk: usize,
+    /// the read call with this 0-based index fails once with this kind
+    pub fault: Option<(usize, std::io::ErrorKind)>,
+    pub calls: usize,
 }
 
 impl Read for ChunkSrc {
     fn read(&mut self, buf: &mut [u8]) -> std::io::Result<usize> {
+        let c = self.calls;
+        self.calls += 1;
+        if let Some((k, kind)) = self.fault {
+            if k == c && !buf.is_empty() {
+                return Err(std::io::Error::new(kind, "verif-source-fault"));
+            }
+        }
         let n = buf.len().min(self.chunk.max(1)).min(self.data.len() - self.pos);
         buf[..n].copy_from_slice(&self.data[self.pos..self.pos + n]);
         self.pos += n;
@@ -1089,6 +1099,8 @@ pub struct RealScenario {
     pub delay_seed: u64,
     pub delay_scale_us: u64,
     pub delay_target: usize,
+    /// one source error (read call index, kind) while the real reader feeds the pipeline
+    pub io_fault: Option<(usize, std::io::ErrorKind)>,
 }
 
 impl RealScenario {
@@ -1105,6 +1117,7 @@ impl RealScenario {
             "valid_records": self.n_valid, "has_error": self.has_error, "capacity": self.cap, "chunk": self.chunk,
             "threads": self.threads, "queue": self.queue, "api": format!("{:?}", self.api), "stop_after": self.stop_after,
             "init_fail": format!("{:?}", self.init_fail), "delay": self.delay.name(), "delay_seed": self.delay_seed, "delay_target": self.delay_target,
+            "source_fault": format!("{:?}", self.io_fault),
         })
     }
 }
@@ -1205,6 +1218,8 @@ macro_rules! real_impl {
                 data: sc.input.clone(),
                 pos: 0,
                 chunk: sc.chunk,
+                fault: sc.io_fault,
+                calls: 0,
             };
             let cap = sc.cap;
             let stop = sc.stop_after;
@@ -1459,6 +1474,8 @@ pub fn sequential_error(sc: &RealScenario) -> Option<RealErr> {
         data: sc.input.clone(),
         pos: 0,
         chunk: sc.chunk,
+        fault: sc.io_fault,
+        calls: 0,
     };
     match sc.fmt {
         Fmt::Fasta => {
@@ -1549,6 +1566,12 @@ pub fn check_real(sc: &RealScenario, res: &RealResult, findings: &mut Vec<Findin
                 // drained to the end without error
                 if sc.has_error {
                     f("C15", "parse-error-lost", "the input has an invalid record but the call returned Ok(None)".into());
+                } else if sc.io_fault.is_some() && sequential_error(sc).is_some() {
+                    f(
+                        "C15",
+                        "source-error-lost",
+                        format!("the source failed ({:?}) and sequential reading reports {:?}, but the call returned Ok(None)", sc.io_fault, sequential_error(sc)),
+                    );
                 } else {
                     let want: Vec<usize> = (0..sc.n_valid).collect();
                     if sorted != want {
@@ -1677,6 +1700,7 @@ pub fn gen_real(rng: &mut Rng, miri: bool, tag: u64, big: bool) -> RealScenario 
         n_valid,
         has_error,
         cap,
+        io_fault: if !big && !has_error && rng.chance(1, 5) { Some((rng.below(10), *rng.pick(&crate::src::ERR_KINDS))) } else { None },
         chunk: *rng.pick(&[1usize, 7, 64, 100_000]),
         threads: if !miri && !big && rng.chance(1, 40) { *rng.pick(&[12u32, 16, 33, 64]) } else { 1 + rng.below(if miri { 3 } else { 8 }) as u32 },
         queue,
